@@ -13,4 +13,5 @@ def run(rep, tier, seed, scratch):
     g = Gen(seed)
     for u in (IterateUnit(), Loop()):
         run_unit(rep, u, u.gen(g, tier), scratch)
-    camp_props.run_single(rep, 'C02', tier, seed, 40, 300)
+    camp_props.run_single(rep, 'C02', tier, seed, 40, 300, families=['convex_qp', 'convex_qp', 'nonlinear', 'infeasible', 'unbounded', 'unbounded_cons'])
+    camp_props.run_integration_C02(rep, tier, seed)
